@@ -258,7 +258,22 @@ func diff(src, dst *rib.RIB, explicitReplace map[spb.AFTType]bool, id *atomic.Ui
 
 	ops := NewReconcileOps()
 
-	for srcNI, srcNIEntries := range srcContents {
+	// Network instances that exist only in the destination must be considered too,
+	// since their entries need to be deleted.
+	netInsts := map[string]bool{}
+	for ni := range srcContents {
+		netInsts[ni] = true
+	}
+	for ni := range dstContents {
+		netInsts[ni] = true
+	}
+
+	for srcNI := range netInsts {
+		srcNIEntries, ok := srcContents[srcNI]
+		if !ok {
+			srcNIEntries = &aft.RIB{}
+			srcNIEntries.GetOrCreateAfts()
+		}
 		dstNIEntries, ok := dstContents[srcNI]
 		if !ok {
 			dstNIEntries = &aft.RIB{}
